@@ -37,6 +37,10 @@ def gen_roundtrip(rng):
         hist.append(r)
     r = L.gen_request(rng, g, op="setup", plain=True)
     r["inexact"] = inexact
+    if rng.random() < 0.2:
+        r["types"] = ["build"]          # setup --type build p; unsetup --type build p
+        for h in hist:
+            h["types"] = ["build"]
     u = dict(r, op="unsetup", ver=None)
     if g.get("nstacks", 1) > 1 and rng.random() < 0.6:
         # the unsetup command runs with another EUPS_PATH than the setup (setup -Z other p; unsetup p): the record's
